@@ -13,23 +13,16 @@ theorem jump_length (to : BitVec 64) : (jumpTo to).length = 13 := C02L.jump_leng
 /-- **Invariant, step.** Every public-API call preserves the invariant. -/
 theorem inv_step {env : Env} (he : EnvOk env) {s : St} (hi : Inv env s) (op : Op) : Inv env (step env s op).1 := by
   cases op with
-  | apply b key k origin =>
-    have g := getMocker_spec hi b key
-    exact (applyCb_spec he (setOrigin_spec g.1 _ origin).1 _ _).1
-  | ret b key origin =>
-    have g := getMocker_spec hi b key
-    have so := setOrigin_spec g.1 (getMocker s b key).2 origin
-    simp only [step]
-    split
-    · exact so.1
-    · exact (applyImp_spec he (whens_spec so.1 _).1 _ _).1
-  | cancel b key =>
-    have g := getMocker_spec hi b key
-    exact (cancelMocker_spec he g.1 _).1
-  | reset b => exact (cancelKeys_spec he b _ hi).1
-  | keep b key =>
-    have g := (getMocker_spec hi b key).1
-    exact ⟨g.saved, g.txt, g.reg, g.mg, g.ck⟩
+  | apply b key k origin => exact (doApply_spec he hi b key k origin).1
+  | ret b key origin => exact (doRet_spec he hi b key origin).1
+  | cancel b key => exact (doCancel_spec he hi b key).1
+  | reset b =>
+    show Inv env (resetB s b)
+    unfold resetB
+    cases s.scache b with
+    | none => exact (cancelKeys_spec he b _ hi).1
+    | some o => exact (cancelKeys_spec he o _ (cancelKeys_spec he b _ hi).1).1
+  | keep b key => exact (doKeep_spec hi b b key).1
   | applyH b key k =>
     simp only [step]
     cases s.handle b key with
@@ -49,6 +42,29 @@ theorem inv_step {env : Env} (he : EnvOk env) {s : St} (hi : Inv env s) (op : Op
     cases s.handle b key with
     | none => exact hi
     | some id => exact (cancelMocker_spec he hi id).1
+  | keepS b =>
+    have g := (getStruct_spec hi b).1
+    exact ⟨g.saved, g.txt, g.reg, g.mg, g.ck⟩
+  | sapply b key k origin kept =>
+    simp only [step]
+    cases h : structOf s b kept with
+    | none => exact hi
+    | some r => exact (doApply_spec he (structOf_spec hi b kept r h).1 r.2 key k origin).1
+  | sret b key origin kept =>
+    simp only [step]
+    cases h : structOf s b kept with
+    | none => exact hi
+    | some r => exact (doRet_spec he (structOf_spec hi b kept r h).1 r.2 key origin).1
+  | scancel b key kept =>
+    simp only [step]
+    cases h : structOf s b kept with
+    | none => exact hi
+    | some r => exact (doCancel_spec he (structOf_spec hi b kept r h).1 r.2 key).1
+  | skeep b key kept =>
+    simp only [step]
+    cases h : structOf s b kept with
+    | none => exact hi
+    | some r => exact (doKeep_spec (structOf_spec hi b kept r h).1 r.2 b key).1
 
 /-- **Invariant, all histories.** It holds after every finite history from the pristine state. -/
 theorem reachable_inv {env : Env} (he : EnvOk env) (ops : List Op) : ∀ {s : St}, Inv env s → Inv env (run env s ops) := by
@@ -107,102 +123,88 @@ theorem reset_covers_cache {env : Env} (he : EnvOk env) (ops : List Op) (b key i
     (hc : (run env (init env) ops).cache b key = some id) : key ∈ (run env (init env) ops).keys b :=
   ((reachable_inv_init he ops).ck b key id hc).2.1
 
-/-- **Second Reset is idempotent** on the image: it changes no byte. -/
+/-- **Second Reset is idempotent** on the image: it changes no byte (both levels: the builder's own entries and the
+    children of its struct mocker). -/
 theorem reset_idempotent {env : Env} (he : EnvOk env) (ops : List Op) (b : Nat) (f : Nat) :
     let s1 := (step env (run env (init env) ops) (.reset b)).1
     (step env s1 (.reset b)).1.text f = s1.text f := by
   intro s1
   have hi := reachable_inv_init he ops
-  obtain ⟨i1, _, c1, k1, g1, m1, _, r1, _⟩ := cancelKeys_spec he b ((run env (init env) ops).keys b) hi
-  -- second reset: every write is a pristine write over pristine bytes
-  have h2 := cancelKeys_spec he b (s1.keys b) i1
-  show (cancelKeys s1 b (s1.keys b)).text f = s1.text f
-  -- generalise: cancelling keys whose guards' targets are already pristine changes nothing
-  have gen : ∀ (ks : List Nat) {s : St}, Inv env s →
-      (∀ k, k ∈ ks → ∀ id g, s.cache b k = some id → (s.mockers id).guard = some g → (s.guards g).applied = true →
-        s.text (k % 1000) = env.pristine (k % 1000)) → ∀ x, (cancelKeys s b ks).text x = s.text x := by
-    intro ks
-    induction ks with
-    | nil => intro s _ _ x; rfl
-    | cons k ks ih =>
-      intro s hs hp x
-      cases hc : s.cache b k with
-      | none =>
-        have : cancelKeys s b (k :: ks) = cancelKeys s b ks := by simp [cancelKeys, hc]
-        rw [this]; exact ih hs (fun k' hk' => hp k' (List.mem_cons_of_mem _ hk')) x
-      | some id =>
-        have hdef : cancelKeys s b (k :: ks) = cancelKeys (cancelMocker s id) b ks := by simp [cancelKeys, hc]
-        obtain ⟨c1, c2, c3, c4, c5, c6, c7, c8, c9⟩ := cancelMocker_spec he hs id
-        have ht := (hs.ck b k id hc).1
-        have same : ∀ y, (cancelMocker s id).text y = s.text y := by
-          intro y
-          by_cases hy : y = (s.mockers id).target
-          · cases hgd : (s.mockers id).guard with
-            | none => simp [cancelMocker, cancelGuard, hgd, markCanceled]
-            | some g =>
-              by_cases hap : (s.guards g).applied = true
-              · rw [hy, c4 g hgd hap, ht]; exact (hp k List.mem_cons_self id g hc hgd hap).symm
-              · simp [cancelMocker, cancelGuard, hgd, markCanceled, guardUnpatch, hap]
-          · exact c2 y hy
-        rw [hdef, ih c1 ?_ x, same x]
-        intro k' hk' id' g' h1 h2 h3
-        rw [same]; rw [c5] at h1; rw [(c9 id').2.1] at h2; rw [c7] at h3
-        exact hp k' (List.mem_cons_of_mem _ hk') id' g' h1 h2 h3
-  apply gen (s1.keys b) i1
-  intro k hk id g h1 h2 h3
-  have hk' : k ∈ (run env (init env) ops).keys b := by
-    have : s1.keys = (run env (init env) ops).keys := k1
-    rw [this] at hk; exact hk
-  rw [c1] at h1; rw [g1] at h3; rw [(m1 id).2.1] at h2
-  exact r1 k hk' id g h1 h2 h3
+  show (resetB (resetB (run env (init env) ops) b) b).text f = (resetB (run env (init env) ops) b).text f
+  generalize run env (init env) ops = s0 at hi
+  have ia := (cancelKeys_spec he b (s0.keys b) hi).1
+  have ka : (cancelKeys s0 b (s0.keys b)).keys = s0.keys := (cancelKeys_spec he b (s0.keys b) hi).2.2.2.1
+  have ra := restored_after he hi b (s0.keys b)
+  cases hs : s0.scache b with
+  | none =>
+    have e1 : resetB s0 b = cancelKeys s0 b (s0.keys b) := by simp [resetB, hs]
+    have hs1 : (cancelKeys s0 b (s0.keys b)).scache b = none := by rw [cancelKeys_scache]; exact hs
+    rw [e1]
+    have e2 : resetB (cancelKeys s0 b (s0.keys b)) b
+        = cancelKeys (cancelKeys s0 b (s0.keys b)) b ((cancelKeys s0 b (s0.keys b)).keys b) := by simp [resetB, hs1]
+    rw [e2, ka]
+    exact cancelKeys_noop he b (s0.keys b) ia ra f
+  | some o =>
+    have e1 : resetB s0 b = cancelKeys (cancelKeys s0 b (s0.keys b)) o ((cancelKeys s0 b (s0.keys b)).keys o) := by
+      simp [resetB, hs]
+    rw [e1, ka]
+    -- sa: after the builder's own entries, s1': after the struct mocker's children
+    have i1 := (cancelKeys_spec he o (s0.keys o) ia).1
+    have k1 : (cancelKeys (cancelKeys s0 b (s0.keys b)) o (s0.keys o)).keys = s0.keys := by
+      rw [(cancelKeys_spec he o (s0.keys o) ia).2.2.2.1, ka]
+    have hs1 : (cancelKeys (cancelKeys s0 b (s0.keys b)) o (s0.keys o)).scache b = some o := by
+      rw [cancelKeys_scache, cancelKeys_scache]; exact hs
+    have rb := restored_preserved he ia b o (s0.keys b) (s0.keys o) ra
+    have ro := restored_after he ia o (s0.keys o)
+    generalize cancelKeys (cancelKeys s0 b (s0.keys b)) o (s0.keys o) = s1' at i1 k1 hs1 rb ro
+    have e2 : resetB s1' b = cancelKeys (cancelKeys s1' b (s1'.keys b)) o ((cancelKeys s1' b (s1'.keys b)).keys o) := by
+      simp [resetB, hs1]
+    have kb : (cancelKeys s1' b (s1'.keys b)).keys = s0.keys := by
+      rw [(cancelKeys_spec he b (s1'.keys b) i1).2.2.2.1, k1]
+    rw [e2, kb, k1]
+    have ib := (cancelKeys_spec he b (s0.keys b) i1).1
+    have n1 := cancelKeys_noop he b (s0.keys b) i1 rb
+    have ro' := restored_preserved he i1 o b (s0.keys o) (s0.keys b) ro
+    rw [cancelKeys_noop he o (s0.keys o) ib ro' f, n1 f]
 
 /-- **Operations on one target never change another.** `Apply`/`Return`/`When`/`Origin`/`Cancel` issued for a key whose
-    target is `key % 1000` leave the bytes of every other function untouched (in any state satisfying the invariant, so in
-    particular after any history); `Reset b` touches only targets of keys in `b`'s cache list; operations through a kept
-    handle touch only the target of the mocker the handle refers to; a bare lookup touches nothing. -/
+    target is `key % 1000` — through a builder lookup, through a struct mocker (kept or freshly looked up) — leave the bytes
+    of every other function untouched (in any state satisfying the invariant, so in particular after any history);
+    `Reset b` touches only targets of keys in `b`'s cache list and in the list of its struct mocker; operations through a
+    kept handle touch only the target of the mocker the handle refers to; bare lookups touch nothing. -/
 theorem other_targets_untouched {env : Env} (he : EnvOk env) {s : St} (hi : Inv env s) (op : Op) (f : Nat) :
     (match op with
       | .apply _ key _ _ => key % 1000 ≠ f
       | .ret _ key _ => key % 1000 ≠ f
       | .cancel _ key => key % 1000 ≠ f
-      | .reset b => ∀ k, k ∈ s.keys b → k % 1000 ≠ f
+      | .reset b => (∀ k, k ∈ s.keys b → k % 1000 ≠ f) ∧ (∀ o, s.scache b = some o → ∀ k, k ∈ s.keys o → k % 1000 ≠ f)
       | .keep _ _ => True
       | .applyH b key _ => ∀ id, s.handle b key = some id → (s.mockers id).target ≠ f
       | .retH b key => ∀ id, s.handle b key = some id → (s.mockers id).target ≠ f
-      | .cancelH b key => ∀ id, s.handle b key = some id → (s.mockers id).target ≠ f) →
+      | .cancelH b key => ∀ id, s.handle b key = some id → (s.mockers id).target ≠ f
+      | .keepS _ => True
+      | .sapply _ key _ _ _ => key % 1000 ≠ f
+      | .sret _ key _ _ => key % 1000 ≠ f
+      | .scancel _ key _ => key % 1000 ≠ f
+      | .skeep _ _ _ => True) →
     (step env s op).1.text f = s.text f := by
   cases op with
-  | apply b key k origin =>
-    intro hne
-    obtain ⟨g1, g2, g3, _, _⟩ := getMocker_spec hi b key
-    obtain ⟨o1, o2, _, _, _, o6⟩ := setOrigin_spec g1 (getMocker s b key).2 origin
-    have a := (applyImp_spec he o1 (getMocker s b key).2 (.cb k)).2.1 f (by rw [(o6 _).1, g3]; exact fun h => hne h.symm)
-    show (applyCb env _ _ _).1.text f = _
-    rw [(applyCb_spec he o1 _ k).2.1, a, o2, g2]
-  | ret b key origin =>
-    intro hne
-    obtain ⟨g1, g2, g3, _, _⟩ := getMocker_spec hi b key
-    obtain ⟨o1, o2, _, _, _, o6⟩ := setOrigin_spec g1 (getMocker s b key).2 origin
-    simp only [step]
-    split
-    · rw [o2, g2]
-    · obtain ⟨w1, w2, _, _, w5⟩ := whens_spec o1 (getMocker s b key).2
-      have a := (applyImp_spec he w1 (getMocker s b key).2 (.stub (setOrigin (getMocker s b key).1 (getMocker s b key).2 origin).nStubs)).2.1 f
-        (by rw [(w5 _).1, (o6 _).1, g3]; exact fun h => hne h.symm)
-      rw [a, w2, o2, g2]
-  | cancel b key =>
-    intro hne
-    obtain ⟨g1, g2, g3, _, _⟩ := getMocker_spec hi b key
-    have c := (cancelMocker_spec he g1 (getMocker s b key).2).2.1 f (by rw [g3]; exact fun h => hne h.symm)
-    show (cancelMocker _ _).text f = _
-    rw [c, g2]
+  | apply b key k origin => intro hne; exact (doApply_spec he hi b key k origin).2 f hne
+  | ret b key origin => intro hne; exact (doRet_spec he hi b key origin).2 f hne
+  | cancel b key => intro hne; exact (doCancel_spec he hi b key).2 f hne
   | reset b =>
     intro hne
-    exact (cancelKeys_spec he b (s.keys b) hi).2.2.2.2.2.2.1 f hne
-  | keep b key =>
-    intro _
-    show (getMocker s b key).1.text f = _
-    rw [(getMocker_spec hi b key).2.1]
+    show (resetB s b).text f = _
+    have ia := (cancelKeys_spec he b (s.keys b) hi).1
+    have ta := (cancelKeys_spec he b (s.keys b) hi).2.2.2.2.2.2.1 f hne.1
+    have ka : (cancelKeys s b (s.keys b)).keys = s.keys := (cancelKeys_spec he b (s.keys b) hi).2.2.2.1
+    unfold resetB
+    cases hs : s.scache b with
+    | none => exact ta
+    | some o =>
+      simp only []
+      rw [(cancelKeys_spec he o _ ia).2.2.2.2.2.2.1 f (by rw [ka]; exact hne.2 o hs), ta]
+  | keep b key => intro _; exact congrFun (doKeep_spec hi b b key).2 f
   | applyH b key k =>
     intro hne
     simp only [step]
@@ -229,6 +231,43 @@ theorem other_targets_untouched {env : Env} (he : EnvOk env) {s : St} (hi : Inv 
     cases hh : s.handle b key with
     | none => rfl
     | some id => exact (cancelMocker_spec he hi id).2.1 f (fun h => hne id hh h.symm)
+  | keepS b => intro _; exact congrFun (getStruct_spec hi b).2 f
+  | sapply b key k origin kept =>
+    intro hne
+    simp only [step]
+    cases h : structOf s b kept with
+    | none => rfl
+    | some r =>
+      obtain ⟨ir, tr⟩ := structOf_spec hi b kept r h
+      simp only []
+      rw [(doApply_spec he ir r.2 key k origin).2 f hne, tr]
+  | sret b key origin kept =>
+    intro hne
+    simp only [step]
+    cases h : structOf s b kept with
+    | none => rfl
+    | some r =>
+      obtain ⟨ir, tr⟩ := structOf_spec hi b kept r h
+      simp only []
+      rw [(doRet_spec he ir r.2 key origin).2 f hne, tr]
+  | scancel b key kept =>
+    intro hne
+    simp only [step]
+    cases h : structOf s b kept with
+    | none => rfl
+    | some r =>
+      obtain ⟨ir, tr⟩ := structOf_spec hi b kept r h
+      simp only []
+      rw [(doCancel_spec he ir r.2 key).2 f hne, tr]
+  | skeep b key kept =>
+    intro _
+    simp only [step]
+    cases h : structOf s b kept with
+    | none => rfl
+    | some r =>
+      obtain ⟨ir, tr⟩ := structOf_spec hi b kept r h
+      simp only []
+      rw [(doKeep_spec ir r.2 b key).2, tr]
 
 /-- **Re-mock after Reset works.** After any history followed by `Reset b`, `b.…Apply(cb k)` on a key of `b` (no `Origin`)
     succeeds whenever goom's own preconditions hold for the target (longer than the jump, first byte not the NOP sentinel),
@@ -241,7 +280,7 @@ theorem remock_after_reset {env : Env} (he : EnvOk env) (ops : List Op) (b key k
     (step env s1 (.apply b key k none)).1.text (key % 1000) = overwrite (env.pristine (key % 1000)) (jumpTo (env.cbAddr k)) := by
   intro s1
   have hi := reachable_inv_init he ops
-  obtain ⟨i1, _, c1, k1, _, _, _, _, cn1⟩ := cancelKeys_spec he b ((run env (init env) ops).keys b) hi
+  obtain ⟨i1, c1, _, cn1, _⟩ := resetB_spec he hi b
   have i1' : Inv env s1 := i1
   -- the mocker handed out after Reset is fresh: no sticky Origin
   have hfresh : ((getMocker s1 b key).1.mockers (getMocker s1 b key).2).origin = none ∧
@@ -254,7 +293,7 @@ theorem remock_after_reset {env : Env} (he : EnvOk env) (ops : List Op) (b key k
       have hc0 : (run env (init env) ops).cache b key = some id := by
         have : s1.cache = (run env (init env) ops).cache := c1
         rw [← this]; exact hc
-      have hcan : (s1.mockers id).canceled = true := cn1 key ((hi.ck b key id hc0).2.1) id hc0
+      have hcan : (s1.mockers id).canceled = true := cn1 key id hc0
       simp [hcan, getMocker.fresh, upd]
   obtain ⟨g1, g2, g3, _, _⟩ := getMocker_spec i1' b key
   -- replaceFunc takes the success exit
@@ -290,6 +329,15 @@ theorem relookup_after_handle_apply {env : Env} (he : EnvOk env) {s : St} (hi : 
   unfold getMocker
   simp [hcache, c5 hok]
 
+/-- **Looking the struct mocker up again returns the same one.**  `b.Struct(x)` hands out the cached `*CachedMethodMocker`
+    as long as its `Canceled()` is false — also before its first `.Method()` call, when it has no children yet — so mocks
+    made through a kept `sm := b.Struct(x)` and through later `b.Struct(x)` lookups live in the same child cache, which is the
+    one `Reset` walks (`resetB`, `reset_restores` with the struct mocker as cache owner). -/
+theorem struct_lookup_stable (s : St) (b o : Nat) (hc : s.scache b = some o) (hn : s.scanceled o = false) :
+    getStruct s b = (s, o) := by
+  unfold getStruct
+  simp [hc, hn]
+
 /-- the hypotheses of the theorems above are satisfiable by a non-trivial state: two builders mock the same 16-byte
     function one after the other, the first builder resets: the image is pristine again and the invariant's
     right-hand alternative was inhabited in between. -/
@@ -309,6 +357,12 @@ example : let s := run exEnv (init exEnv) [.apply 0 3 1 none, .apply 1 3 2 (some
 
 example : let s := run exEnv (init exEnv) [.apply 0 3 1 none, .apply 1 3 2 (some 0), .reset 0]
     s.text 3 = exEnv.pristine 3 ∧ behaviour exEnv s 4 3 = .orig := by decide
+
+/-- a struct mocker kept before its first `.Method()`, a fresh lookup in between, mocks through both: Reset restores both -/
+example : let s := run exEnv (init exEnv) [.keepS 0, .sapply 0 2007 1 none false, .sapply 0 2008 2 none true]
+    s.text 7 ≠ exEnv.pristine 7 ∧ s.text 8 ≠ exEnv.pristine 8 ∧ s.scache 0 = some 100 ∧ s.shandle 0 = some 100 ∧
+    s.scanceled 100 = false ∧ (step exEnv s (.reset 0)).1.text 7 = exEnv.pristine 7 ∧
+    (step exEnv s (.reset 0)).1.text 8 = exEnv.pristine 8 := by decide
 
 example : 13 < exEnv.funcSize (3 % 1000) ∧ Gen.Amd64.checkAlreadyPatch ((exEnv.pristine (3 % 1000)).take 13) = false := by decide
 
